@@ -633,6 +633,15 @@ def rule_unescape(ck):
                     raise AnalysisError("_find_groups: anchor-stripping slice not understood: %s" % q.unparse(n.ast))
                 want = (len(lit), None) if e.func.attr == "startswith" else (None, -len(lit))
                 ck.ob(rid, fg, n.ast, (lo, hi) == want and sl.step is None, "exactly the %r anchor is removed from the pattern text (%d character)" % (lit, len(lit)))
+    # a group ends at the FIRST ')' of its fragment (a later ')' is an escaped literal of the text after the group)
+    locs = [c for c in ast.walk(fg.node) if isinstance(c, ast.Call) and isinstance(c.func, ast.Attribute) and c.args and q.is_const(c.args[0], ")") and c.func.attr in ("index", "find", "partition", "split", "rfind", "rindex", "rpartition", "rsplit")]
+    ck.floor(rid, len(locs), 1, "look-ups of the group's closing parenthesis in _find_groups")
+    for c in locs:
+        first = c.func.attr in ("index", "find", "partition") or (c.func.attr == "split" and len(c.args) == 2 and q.is_const(c.args[1], 1))
+        last_ = c.func.attr in ("rfind", "rindex", "rpartition", "rsplit")
+        if not first and not last_:
+            raise AnalysisError("_find_groups: look-up of ')' not understood: %s" % q.unparse(c))
+        ck.ob(rid, fg, c, first, "the capturing group is taken to end at the first ')' of the fragment (text after it, including an escaped ')', is literal)")
     for n in cfg.stmt_nodes(lambda n: n.kind == "stmt" and isinstance(n.ast, ast.Assign) and isinstance(n.ast.value, ast.Call) and isinstance(n.ast.value.func, ast.Attribute) and n.ast.value.func.attr in ("index", "find") and n.ast.value.args and q.is_const(n.ast.value.args[0], ")")):
         loc = q.dotted(n.ast.targets[0])
         frag = q.dotted(n.ast.value.func.value)
@@ -1008,6 +1017,7 @@ MUTANTS = [
     ("unescapable fragment is not caught", _in(R, "PathMatches._find_groups", replace_stmt(lambda st: isinstance(st, ast.Try) and "re_unescape(fragment)" in _u(st), lambda st: st.body)), "C31.unescape"),
     ("patterns with non-capturing groups are 'reversed' anyway", _in(R, "PathMatches._find_groups", remove_stmts(lambda st: isinstance(st, ast.If) and "count" in _u(st.test))), "C31.unescape"),
     ("'$' stripping removes two characters", _in(R, "PathMatches._find_groups", replace_expr(lambda n: isinstance(n, ast.Subscript) and _u(n) == "pattern[:-1]", lambda n: parse_expr("pattern[:-2]"))), "C31.unescape"),
+    ("seeded C31-adv6: group end located with rfind (last ')' instead of the first)", _in(R, "PathMatches._find_groups", replace_expr(lambda n: isinstance(n, ast.Attribute) and n.attr == "index" and _u(n.value) == "fragment", lambda n: ast.Attribute(value=n.value, attr="rindex", ctx=ast.Load()))), "C31.unescape"),
     ("closing parenthesis kept in the reverse text", _in(R, "PathMatches._find_groups", replace_expr(lambda n: isinstance(n, ast.BinOp) and _u(n) == "paren_loc + 1", lambda n: parse_expr("paren_loc"))), "C31.unescape"),
     ("re_unescape lets \\d through", _in(U, "_re_unescape_replacement", remove_stmts(lambda st: isinstance(st, ast.If))), "C31.unescape"),
     ("re_unescape keeps the backslash", _in(U, "_re_unescape_replacement", replace_stmt(lambda st: isinstance(st, ast.Return), lambda st: [parse_stmt("return match.group(0)")])), "C31.unescape"),
